@@ -16,13 +16,16 @@ Zero == [n \in Names |-> 0]
 \* what a fragment does to the registries, abstractly: which ones it increases (see harness/drv_c12.py FRAGMENTS)
 Touches(f) == CASE f = 1 -> Names \ {"PSDMatrix.counter"}                                         \* partition model, solved
                 [] f \in {2, 4, 10, 11} -> Names \ {"BlockPartition.counter", "BlockPartition.list_of_partitions"}  \* LMIs
+                [] f = 13 -> Names \ {"BlockPartition.counter", "BlockPartition.list_of_partitions", "PEP.counter"}   \* no PEP at all
                 [] OTHER -> Names \ {"BlockPartition.counter", "BlockPartition.list_of_partitions", "PSDMatrix.counter"}
 VARIABLES reg, hist, justReset, model
 vars == <<reg, hist, justReset, model>>
 Init == reg = Zero /\ hist = <<>> /\ justReset = FALSE /\ model = 0
 NewPEP(r) == [n \in Names |-> IF n \in Forget THEN r[n] ELSE IF n = "PEP.counter" THEN 1 ELSE 0]
+NoPep(f) == f = 13                       \* a fragment that uses the DSL without creating a PEP: nothing is reset
 Fragment(f) == /\ model = 0 /\ Len(hist) < MaxHist
-               /\ reg' = [n \in Names |-> IF n \in Touches(f) THEN NewPEP(reg)[n] + 1 ELSE NewPEP(reg)[n]]
+               /\ LET base == IF NoPep(f) THEN reg ELSE NewPEP(reg) IN
+                  reg' = [n \in Names |-> IF n \in Touches(f) THEN base[n] + 1 ELSE base[n]]
                /\ hist' = Append(hist, f) /\ justReset' = FALSE /\ UNCHANGED model
 ModelB(b) == /\ model = 0
              /\ reg' = NewPEP(reg) /\ justReset' = TRUE /\ model' = b /\ UNCHANGED hist
